@@ -43,6 +43,19 @@ def conc(req, timeout=900):
         return {"error": "bad json: " + p.stdout[-300:]}
 
 
+def model_is_replayable(ct, model):
+    """a solver model can be replayed on the real function only if every parameter is a plain value (text, number, flag) and the model
+    fixes all of them; object parameters are references of the abstract heap model, not real objects"""
+    import re
+    plain = {"Str", "NStr", "AStr", "Int", "Bool", "Real", "Float"}
+    for name, ty in ct.params.items():
+        if not set(re.findall(r"[A-Za-z_]+", ty)) <= (plain | {"Opt", "Optional"}):
+            return False
+        if name not in model:
+            return False
+    return True
+
+
 def load_known():
     path = os.path.join(VERIF, "known_findings.json")
     if not os.path.exists(path):
@@ -190,7 +203,7 @@ def main():
         concrete = None
         # (1) replay the model's inputs on the real function
         for o in sat_obs:
-            if o.get("model") and ct.bounded is not None and not a.no_rt:
+            if o.get("model") and ct.bounded is not None and not a.no_rt and model_is_replayable(ct, o["model"]):
                 rep = conc({"op": "replay", "cid": cid, "inputs": o["model"]})
                 if rep.get("violated"):
                     concrete = {"input": o["model"], "violated": rep["violated"], "outcome": rep.get("outcome"),
@@ -325,17 +338,41 @@ def main():
 
 
 def do_replay(prop, path):
+    """re-run ONE recorded violation against the current tree: exit 1 if it is still there, 0 if it is gone"""
     payload = json.load(open(path))
     print(json.dumps(payload, indent=1)[:3000])
-    if payload.get("kind") in ("proof-obligation", "bounded-contract"):
+    kind = payload.get("kind")
+    if kind in ("proof-obligation", "bounded-contract"):
+        still = False
+        cid = payload["contract"]
+        if kind == "proof-obligation":
+            # (a) the obligation itself: generate it again from the current source and try to discharge it
+            load_all()
+            r = verify_one(cid, 30000)
+            obs = [o for o in r.get("obligations", []) if o["id"] == payload["obligation"]] if r.get("ok") else []
+            verdicts = [o["verdict"] for o in obs]
+            print(f"obligation {payload['obligation']} on the current tree: {verdicts or r.get('error', 'not generated')}")
+            if not obs or any(v != "unsat" for v in verdicts):
+                still = True
         case = payload.get("concrete") or payload.get("case")
-        if case and case.get("input") is not None:
-            rep = conc({"op": "replay", "cid": payload["contract"], "inputs": case["input"]})
-            print("replay on the current tree:", json.dumps(rep)[:1500])
-            return 1 if rep.get("violated") else 0
-        print("no concrete input recorded for this obligation (no-failing-input-found); re-run the check to re-prove it")
-        return 1
-    if payload.get("kind") == "bounded-workload":
+        if case and isinstance(case.get("input"), dict):
+            # (b) the recorded concrete input on the real function
+            rep = conc({"op": "replay", "cid": cid, "inputs": case["input"]})
+            print("recorded input on the current tree:", json.dumps(rep)[:1500])
+            still = still or bool(rep.get("violated"))
+        elif case:
+            # (b') the input holds real objects (not serialisable): re-run the deterministic bounded search of this contract
+            load_all() if not C.CONTRACTS else None
+            res = conc({"op": "search", "cid": cid, "tier": "quick"})
+            labels = set(case.get("violated", []))
+            hits = [f for f in res.get("failures", []) if labels & set(f.get("violated", []))]
+            print(f"bounded search of {cid} on the current tree: {res.get('cases', 0)} cases, "
+                  f"{len(hits)} failing the recorded clause(s) {sorted(labels)}; first: {json.dumps(hits[:1])[:600]}")
+            still = still or bool(hits) or "error" in res
+        elif kind == "proof-obligation":
+            print("no concrete input was found for this obligation (no-failing-input-found)")
+        return 1 if still else 0
+    if kind == "bounded-workload":
         p = subprocess.run([VENV_PY, "-m", f"rt.{prop.lower()}", "--replay", path], cwd=VERIF,
                            env=dict(os.environ, PYTHONPATH=SUBPATH))
         return p.returncode
